@@ -58,6 +58,38 @@ type vTransport struct {
 	gatePos    []int
 	gateWrites []int
 	wake       chan struct{}
+
+	// timed gate: input from offset timedPos[i] on is delivered only once timedOpen[i] has been closed (by a peer
+	// goroutine of the harness that sleeps a - possibly symbolic - duration first)
+	timedPos  []int
+	timedOpen []chan struct{}
+	// notifyAt > 0: notifyCh is closed when the endpoint has made that many Write calls
+	notifyAt int
+	notifyCh chan struct{}
+}
+
+// vTimedGate makes the bytes from offset pos on available only after the returned channel has been closed.
+func (t *vTransport) vTimedGate(pos int) chan struct{} {
+	ch := make(chan struct{})
+	t.timedPos = append(t.timedPos, pos)
+	t.timedOpen = append(t.timedOpen, ch)
+	return ch
+}
+
+// vOpenGate opens a timed gate and wakes a reader waiting at it.
+func (t *vTransport) vOpenGate(ch chan struct{}) {
+	close(ch)
+	select {
+	case t.wake <- struct{}{}:
+	default:
+	}
+}
+
+// vNotifyAt returns a channel that is closed once the endpoint has made n Write calls.
+func (t *vTransport) vNotifyAt(n int) chan struct{} {
+	t.notifyAt = n
+	t.notifyCh = make(chan struct{})
+	return t.notifyCh
 }
 
 // vGate makes the bytes from offset pos on available only after the endpoint has written n times.
@@ -71,6 +103,15 @@ func (t *vTransport) gateLimit() int {
 	for i, p := range t.gatePos {
 		if len(t.writes) < t.gateWrites[i] && p < lim {
 			lim = p
+		}
+	}
+	for i, p := range t.timedPos {
+		if p < lim {
+			select {
+			case <-t.timedOpen[i]:
+			default:
+				lim = p
+			}
 		}
 	}
 	return lim
@@ -154,6 +195,9 @@ func (t *vTransport) Write(p []byte) (int, error) {
 	}
 	t.out = append(t.out, p...)
 	t.writes = append(t.writes, len(t.out))
+	if t.notifyAt > 0 && len(t.writes) == t.notifyAt {
+		close(t.notifyCh)
+	}
 	select {
 	case t.wake <- struct{}{}:
 	default:
